@@ -78,7 +78,8 @@ pub fn check(st: &mut Stats, c: &C) {
             let e = c.a.cmp(&c.b);
             let ok1 = t.partial_cmp(&i) == Some(e) && (t == i) == (e == Ordering::Equal) && (t < i) == (e == Ordering::Less) && (t <= i) == (e != Ordering::Greater) && (t > i) == (e == Ordering::Greater) && (t != i) == (e != Ordering::Equal);
             let r = e.reverse();
-            let ok2 = i.partial_cmp(&t) == Some(r) && (i == t) == (r == Ordering::Equal) && (i < t) == (r == Ordering::Less) && (i >= t) == (r != Ordering::Less) && (i > t) == (r == Ordering::Greater);
+            let ok2 = i.partial_cmp(&t) == Some(r) && (i == t) == (r == Ordering::Equal) && (i < t) == (r == Ordering::Less) && (i >= t) == (r != Ordering::Less) && (i > t) == (r == Ordering::Greater) && (i != t) == (r != Ordering::Equal) && (i <= t) == (r != Ordering::Greater);
+            let ok1 = ok1 && (t >= i) == (e != Ordering::Less);
             if !ok1 {
                 st.fail("C12/compare/time-vs-interval", format!("time {} vs interval {}", c.a, c.b));
             }
@@ -133,6 +134,28 @@ pub fn run(ctx: &Ctx, st: &mut Stats) {
     });
     if sstride == 1 {
         st.mark_exhaustive("seconds x {0,1,999999}us x boundary-intervals", &format!("all 86,400 seconds x 3 microsecond values x {} boundary intervals + exact-midnight intervals", ni));
+    }
+    // every microsecond count of a day as an interval of either sign: conversion to a time of day, and add/sub to one time
+    // (thorough: all 86,400,000,000; quick: a stride coprime to the powers of two and ten)
+    let ustride: i64 = ctx.tier.pick(400_000_009, ctx.q(100_003, 20_011), 1);
+    let chunk: i64 = 1_000_000;
+    ctx.par(st, "every microsecond interval within one day, both signs: Time::from(interval) and 12:00:00.5 +- interval", true, 0, DAY_US / chunk, |st, c, rng| {
+        let days = rng.range_i64(0, 99_999_998) * DAY_US;
+        let mut u = c * chunk + (ustride - (c * chunk) % ustride) % ustride;
+        while u < (c + 1) * chunk {
+            st.eval(&C::ab(K::FromDt, u, 0), check);
+            st.eval(&C::ab(K::FromDt, -u, 0), check);
+            st.eval(&C::ab(K::AddSub, 43_200_500_000, u), check);
+            st.eval(&C::ab(K::AddSub, 43_200_500_000, -u), check);
+            if u % 64 == 0 {
+                st.eval(&C::ab(K::FromDt, -(u + days), 0), check);
+                st.eval(&C::ab(K::AddSub, 1, u + days), check);
+            }
+            u += ustride;
+        }
+    });
+    if ustride == 1 {
+        st.mark_exhaustive("every microsecond interval within one day, both signs: Time::from(interval) and 12:00:00.5 +- interval", "all 86,400,000,000 sub-day interval magnitudes x both signs");
     }
     // bit-structured times x bit-structured intervals
     let bts = bit_times();
@@ -201,7 +224,7 @@ pub fn run(ctx: &Ctx, st: &mut Stats) {
                 C::ab(K::AddSub, t, i)
             }
         };
-        st.eval_h(c.hash(c.k as u64), &c, check);
+        { let (an, td, ks) = crate::primers::g_context(c.a, c.b); crate::primers::eval_sched(st, rng, c.hash(c.k as u64), &c, &an, td, &ks, check); }
     });
 }
 
